@@ -99,7 +99,7 @@ class Run(object):
         self.fallback = fallback
         self.max_steps = max_steps
         self.ev = []
-        self.pending = {}          # (p, i, j) -> future
+        self.pending = {}          # (p, i, j) -> [future, ...]
         self.pending_order = []
         self.arm_sraise = None
         self.fired = []
@@ -160,10 +160,13 @@ class Run(object):
 
             @asyncio.coroutine
             def process(self, item):
+                if not isinstance(item, int) or isinstance(item, bool):
+                    item = 0          # something that is not an item of the source (recorded as item 0: never supplied)
                 run.log(e='begin', p=self.p, i=item, j=self.j)
                 fut = asyncio.get_event_loop().create_future()
                 key = (self.p, item, self.j)
-                run.pending[key] = fut
+                # (a list: code under test that runs the same task on the same item twice must stay observable)
+                run.pending.setdefault(key, []).append(fut)
                 run.pending_order.append(key)
                 try:
                     yield from fut
@@ -200,6 +203,13 @@ class Run(object):
             return (e[1], e[2], e[3]) in self.pending
         return True
 
+    def _take(self, key):
+        lst = self.pending[key]
+        fut = lst.pop(0)
+        if not lst:
+            del self.pending[key]
+        return fut
+
     def _state(self):
         st = getattr(self.app, '_state', None)
         return getattr(st, 'value', None)
@@ -213,12 +223,12 @@ class Run(object):
         if k == 'body':
             key = (e[1], e[2], e[3])
             self.pending_order.remove(key)
-            self.pending.pop(key).set_result(None)
+            self._take(key).set_result(None)
         elif k == 'braise':
             self.n_raise += 1
             key = (e[1], e[2], e[3])
             self.pending_order.remove(key)
-            self.pending.pop(key).set_exception(make_exc(e[4]))
+            self._take(key).set_exception(make_exc(e[4]))
         elif k == 'sraise':
             self.n_raise += 1
             self.arm_sraise = e[1]
